@@ -85,6 +85,8 @@ func (g *guardBuf) place(b []byte, atEnd bool) []byte {
 
 // traverseAll runs every read API over pj; errors are fine, panics and step-cap overruns are violations.
 func traverseAll(r *Run, pj *simdjson.ParsedJson, what string) bool {
+	crossReadStride = 8
+	defer func() { crossReadStride = 1 }()
 	check := func(name string, err error) bool {
 		if err == nil {
 			return true
@@ -142,7 +144,11 @@ func traverseAll(r *Run, pj *simdjson.ParsedJson, what string) bool {
 				}
 				elem.StringCvt()
 				elem.Interface()
-				// every typed accessor on whatever the iterator stands on (most of them are conversions or errors)
+				// every typed accessor on whatever the iterator stands on (most of them are conversions or errors);
+				// on big tapes for every 16th value
+				if len(pj.Tape) > 512 && steps%8 != 0 {
+					continue
+				}
 				elem.Float()
 				elem.FloatFlags()
 				elem.Int()
@@ -230,6 +236,12 @@ type blobCase struct {
 	skipped  int
 	accepted int
 	rejected int
+	travWork int      // tape words traversed so far in this run (bounds the harness's own work, see try)
+	preTape  []uint64 // content of a reused destination just before the current call (its whole capacity) ...
+	preLens  [3]int   // ... with the lengths of Tape, Strings.B and Message
+	preStr   []byte
+	preMsg   []byte
+	preOK    bool
 	base     []byte   // the unmodified blob of this run (the first one the destination received)
 	recent   [][]byte // the last blobs tried before the current one: a reused destination carries their residue
 }
@@ -242,6 +254,17 @@ func (bc *blobCase) record(blob []byte) {
 	in["blob"] = base64.StdEncoding.EncodeToString(blob)
 	if bc.dst == nil {
 		return
+	}
+	if bc.preOK {
+		// the exact content of the destination before the call: residue of any number of earlier blobs
+		tb := make([]byte, 8*len(bc.preTape))
+		for i, w := range bc.preTape {
+			binary.LittleEndian.PutUint64(tb[8*i:], w)
+		}
+		in["dst_tape"] = base64.StdEncoding.EncodeToString(tb)
+		in["dst_strings"] = base64.StdEncoding.EncodeToString(bc.preStr)
+		in["dst_message"] = base64.StdEncoding.EncodeToString(bc.preMsg)
+		in["dst_lens"] = fmt.Sprintf("%d,%d,%d", bc.preLens[0], bc.preLens[1], bc.preLens[2])
 	}
 	if bc.base != nil {
 		in["baseblob"] = base64.StdEncoding.EncodeToString(bc.base)
@@ -269,6 +292,18 @@ func (bc *blobCase) try(blob []byte, kind string) bool {
 		bc.nontriv++
 	}
 	in := append([]byte(nil), blob...)
+	bc.preOK = false
+	if d := bc.dst; d != nil && cap(d.Tape) <= 8192 && cap(d.Message) <= 1<<16 && (d.Strings == nil || cap(d.Strings.B) <= 1<<16) {
+		bc.preTape = append(bc.preTape[:0], d.Tape[:cap(d.Tape)]...)
+		bc.preMsg = append(bc.preMsg[:0], d.Message[:cap(d.Message)]...)
+		bc.preStr = bc.preStr[:0]
+		bc.preLens = [3]int{len(d.Tape), -1, len(d.Message)}
+		if d.Strings != nil {
+			bc.preStr = append(bc.preStr, d.Strings.B[:cap(d.Strings.B)]...)
+			bc.preLens[1] = len(d.Strings.B)
+		}
+		bc.preOK = true
+	}
 	var out *simdjson.ParsedJson
 	var derr error
 	var err error
@@ -315,6 +350,15 @@ func (bc *blobCase) try(blob []byte, kind string) bool {
 		return true
 	}
 	bc.accepted++
+	// the harness's own work per run is bounded: a plan that makes thousands of faults on a blob whose tape has thousands
+	// of words would traverse tens of millions of words (minutes, and the shrinker re-executes runs); past 8 million words
+	// every eighth accepted result is traversed, past 32 million none (Deserialize itself is still judged on every blob)
+	bc.travWork += len(out.Tape)
+	if bc.travWork > 32<<20 || bc.travWork > 8<<20 && bc.accepted%8 != 0 {
+		r.stat("accepted_results_not_traversed_work_bound", 1)
+		remember()
+		return true
+	}
 	if !traverseAll(r, out, fmt.Sprintf("result of Deserialize on a %s blob (%d bytes, dst reused %v)", kind, len(blob), bc.dst != nil)) {
 		bc.record(blob)
 		return false
@@ -404,6 +448,27 @@ func RunFaultBlob(r *Run) {
 		// replay files carry the literal mutated blob (its bytes cannot be regenerated in another process) and, for a
 		// reused destination, the literal blobs that destination received before it
 		if raw, err := base64.StdEncoding.DecodeString(lit); err == nil {
+			if tb64, ok := replayInputs["dst_tape"]; ok {
+				// the destination exactly as it was before the failing call
+				tb, _ := base64.StdEncoding.DecodeString(tb64)
+				sb, _ := base64.StdEncoding.DecodeString(replayInputs["dst_strings"])
+				mb, _ := base64.StdEncoding.DecodeString(replayInputs["dst_message"])
+				var l0, l1, l2 int
+				fmt.Sscanf(replayInputs["dst_lens"], "%d,%d,%d", &l0, &l1, &l2)
+				tape := make([]uint64, len(tb)/8)
+				for i := range tape {
+					tape[i] = binary.LittleEndian.Uint64(tb[8*i:])
+				}
+				if l0 <= len(tape) && l1 <= len(sb) && l2 <= len(mb) {
+					d := &simdjson.ParsedJson{Tape: tape[:l0], Message: mb[:l2]}
+					if l1 >= 0 {
+						d.Strings = &simdjson.TStrings{B: sb[:l1]}
+					}
+					bc.dst = d
+					bc.try(raw, "replayed-literal")
+					return
+				}
+			}
 			for _, k := range []string{"baseblob", "prev0", "prev1", "prev2"} {
 				if p, ok := replayInputs[k]; ok && bc.dst != nil {
 					if pr, err := base64.StdEncoding.DecodeString(p); err == nil {
